@@ -687,6 +687,9 @@ class Interp:
             raise self.unsupported(f"decorator {n} on {name}")
         if isinstance(dec, ExtObj) and dec.kind == "dataclass_decorator":
             return self._make_dataclass(fn, dec.attrs)
+        if isinstance(dec, ExtObj) and dec.kind == "cache_decorator":
+            fn.cached = True
+            return fn
         if isinstance(dec, ExtObj) and dec.kind == "property_setter":
             prop = dec.attrs["prop"]
             new = FuncRef(prop.info, prop.env, prop.defaults, "property")
@@ -816,6 +819,14 @@ class Interp:
         if info.qualname in self.summaries:
             return self.summaries[info.qualname](self, args, kwargs)
         bound = self.bind_args(fref, args, kwargs)
+        if fref.cached:
+            from .freeze import freeze as _fz
+
+            ckey = (info.qualname, _fz(list(bound.values())))
+            cache = self.__dict__.setdefault("_fn_cache", {})
+            if ckey in cache:
+                self.emit("cache_hit", func=info.qualname)
+                return cache[ckey]
         env = Env(bound, fref.env, info.module, info, info.defining_class)
         node = info.node
         self.emit("call", func=info.qualname, module=info.module, args=bound)
@@ -834,7 +845,10 @@ class Interp:
                 return r.value
             return None
 
-        return self._with_frame(info, run)
+        res = self._with_frame(info, run)
+        if fref.cached:
+            self._fn_cache[ckey] = res
+        return res
 
     def _with_frame(self, info: FunctionInfo, thunk: Callable[[], Any]) -> Any:
         self.depth += 1
